@@ -2,6 +2,7 @@ package hx
 
 import (
 	"fmt"
+	"runtime/debug"
 	"sort"
 	"strings"
 )
@@ -94,6 +95,7 @@ func Exec(h []Op, m Mode) *Result {
 			res.W = nil
 		}
 	}()
+	debug.SetPanicOnFault(true)
 	ref := NewRefDB()
 	res.Ref = ref
 	u := UniverseOf(h)
@@ -126,9 +128,22 @@ func Exec(h []Op, m Mode) *Result {
 		var beforeOpts ReadOpts
 		if o.K == Restart && m.RestartDiff {
 			beforeOpts = readOpts()
-			before = Read(w.E, u, beforeOpts)
+			var pan string
+			before, pan = safeRead(w, u, beforeOpts)
+			if pan != "" {
+				addFail(&Failure{Step: i, Kind: "panic:read", Note: pan})
+				res.U = u
+				m.Keep = true
+				return res
+			}
 		}
-		err := w.Do(i, o)
+		err, pan := safeDo(w, i, o)
+		if pan != "" {
+			addFail(&Failure{Step: i, Kind: "panic:" + o.K, Note: pan})
+			res.U = u
+			m.Keep = true // the instance may be poisoned (locks held): do not Close it
+			return res
+		}
 		now := w.Times[len(w.Times)-1]
 		opTimes = append(opTimes, now)
 		if o.K == Restart && err != nil {
@@ -159,7 +174,13 @@ func Exec(h []Op, m Mode) *Result {
 			}
 		}
 		if before != nil && w.E != nil {
-			after := Read(w.E, u, beforeOpts)
+			after, pan := safeRead(w, u, beforeOpts)
+			if pan != "" {
+				addFail(&Failure{Step: i, Kind: "panic:read", Note: pan})
+				res.U = u
+				m.Keep = true
+				return res
+			}
 			// the universe may have grown by evolved ids only before this point, both reads use the same u
 			ds := Compare(before, after, ref.TolFor())
 			for _, k := range kindsOf(ds) {
@@ -173,7 +194,13 @@ func Exec(h []Op, m Mode) *Result {
 			}
 		}
 		if m.Stepwise || (m.FinalModel && i == len(h)-1) {
-			got := Read(w.E, u, readOpts())
+			got, pan := safeRead(w, u, readOpts())
+			if pan != "" {
+				addFail(&Failure{Step: i, Kind: "panic:read", Note: pan})
+				res.U = u
+				m.Keep = true
+				return res
+			}
 			want := ref.Read(u, readOpts())
 			ds := Compare(want, got, ref.TolFor())
 			for _, k := range kindsOf(ds) {
@@ -192,7 +219,7 @@ func Exec(h []Op, m Mode) *Result {
 	}
 	res.U = u
 	if res.Final == nil && w.E != nil {
-		res.Final = Read(w.E, u, readOpts())
+		res.Final, _ = safeRead(w, u, readOpts())
 	}
 	return res
 }
@@ -225,6 +252,32 @@ func (r *Result) Primary() *Failure {
 		}
 	}
 	return best
+}
+
+// safeDo runs one operation and turns a panic (or, with SetPanicOnFault, a memory
+// fault) raised on the calling goroutine into a value.
+func safeDo(w *World, i int, o Op) (err error, pan string) {
+	defer func() {
+		if r := recover(); r != nil {
+			pan = fmt.Sprint(r)
+			if len(w.Times) <= i {
+				w.Times = append(w.Times, 0)
+				w.Errs = append(w.Errs, nil)
+			}
+		}
+	}()
+	return w.Do(i, o), ""
+}
+
+// safeRead is Read with panics/faults turned into a nil result.
+func safeRead(w *World, u Universe, ro ReadOpts) (r *Readout, pan string) {
+	defer func() {
+		if x := recover(); x != nil {
+			pan = fmt.Sprint(x)
+			r = nil
+		}
+	}()
+	return Read(w.E, u, ro), ""
 }
 
 // HasKind reports whether the result contains a failure of the given kind.
